@@ -856,3 +856,65 @@ class UnixReceive(UnixUnit):
 
 
 UNITS += [UnixSend, UnixReceive]
+
+
+# ---- _RawSocketMixin.aclose: closing wakes BOTH directions ---------------------------------------------------------------------------
+# (seed C18-s5: only one of the two pending waiters was woken - a writer blocked on back-pressure stayed blocked on a closed stream)
+
+FUT = RefT("Future")
+register_class("RawMixin", dict(CLASSES["RawMixin"].fields, _receive_future=FUT, _send_future=FUT), source=(ASYNCIO, "_RawSocketMixin"))
+register_class("UNIXSocketStream", dict(CLASSES["UNIXSocketStream"].fields, _receive_future=FUT, _send_future=FUT), source=(ASYNCIO, "UNIXSocketStream"), bases=("RawMixin",))
+
+
+class RawAclose(UnixUnit):
+    """_RawSocketMixin.aclose(): the first call marks the stream closing, closes the socket (unless it is already
+    detached) and resolves BOTH the pending read waiter and the pending write waiter, so that no task stays blocked on a
+    locally closed stream; a second call does nothing."""
+
+    method = "aclose"
+    trusted = ("E1", "E10")
+
+    def model_getattr(self, ip, obj, attr):
+        st = ip.st
+        if isinstance(obj, Sym) and obj.ty is RS:
+            if attr == "fileno":
+                return Builtin("socket.fileno", lambda ip: Sym(st.fresh("fileno", z3.IntSort()), INT))
+            if attr == "close":
+                def close(ip):
+                    self.closes += 1
+                    st.put("RawSock", "$closed", obj.t, z3.BoolVal(True))
+
+                return Builtin("socket.close", close)
+        return super().model_getattr(ip, obj, attr)
+
+    def assume_state(self, ip):
+        self.reassume(ip, None)
+        h = H(ip.st)
+        s = self.self_val.t
+        al = h.arr("$", "alloc")
+        for f_ in ("_receive_future", "_send_future"):
+            r = h.f(UX, f_, s)
+            ip.st.assume(z3.Or(r == 0, z3.And(r > 0, z3.Select(al, r))))
+        ip.st.assume(z3.Or(h.f(UX, "_receive_future", s) == 0, h.f(UX, "_receive_future", s) != h.f(UX, "_send_future", s)))
+
+    def on_entry(self, ip, pre, a):
+        super().on_entry(ip, pre, a)
+        self.closes = 0
+
+    def on_exit(self, ip, pre, a, exc, ret):
+        s = a.self
+        post = H(ip.st)
+        nm = "_RawSocketMixin.aclose"
+        if exc is not None:
+            ip.ctx.oblige(f"{nm}/post:never_raises", z3.BoolVal(exc.pycls is not None and exc.pycls.__name__ == "CancelledError"), "post")
+            return
+        was_closing = pre.f(UX, "_closing", s)
+        rf, sf = pre.f(UX, "_receive_future", s), pre.f(UX, "_send_future", s)
+        st_of = lambda h, f: h.f("Future", "state", f)
+        ip.ctx.oblige(f"{nm}/post:the_stream_is_marked_closing", post.f(UX, "_closing", s), "post")
+        ip.ctx.oblige(f"{nm}/post:the_first_call_leaves_no_pending_waiter_in_either_direction", z3.Implies(z3.Not(was_closing), z3.And(z3.Or(rf == 0, st_of(post, rf) != lib.PENDING), z3.Or(sf == 0, st_of(post, sf) != lib.PENDING))), "post")
+        ip.ctx.oblige(f"{nm}/post:a_second_call_does_nothing", z3.Implies(was_closing, z3.And(z3.BoolVal(self.closes == 0), post.arr("Future", "state") == pre.arr("Future", "state"))), "post")
+        ip.ctx.oblige(f"{nm}/post:the_socket_is_closed_at_most_once", z3.BoolVal(self.closes <= 1), "post")
+
+
+UNITS += [RawAclose]
